@@ -605,6 +605,19 @@ class Network(Cached):
     #
 
     @staticmethod
+    def _node_weights_from_graph(graph):
+        """
+        Return the node weights stored with an igraph Graph object by
+        :meth:`save`, or None. The GML format does not allow underscores in
+        attribute names, so igraph's GML writer stores them as
+        ``nodeweightnsi``.
+        """
+        for name in ("node_weight_nsi", "nodeweightnsi"):
+            if name in graph.vs.attribute_names():
+                return np.array(graph.vs.get_attribute_values(name))
+        return None
+
+    @staticmethod
     def FromIGraph(graph, silence_level=0):
         """
         Return a :class:`Network` object given an igraph Graph object.
@@ -636,11 +649,7 @@ class Network(Cached):
             (np.ones_like(edges.T[0]), tuple(edges.T)), shape=(N, N))
 
         #  Extract node weights
-        if "node_weight_nsi" in graph.vs.attribute_names():
-            node_weights = np.array(
-                graph.vs.get_attribute_values("node_weight_nsi"))
-        else:
-            node_weights = None
+        node_weights = Network._node_weights_from_graph(graph)
 
         net = Network(adjacency=sp_A, directed=directed,
                       node_weights=node_weights, silence_level=silence_level)
